@@ -491,6 +491,8 @@ def assemble(unit, canary=False, mutant=None, check_fp=True):
                 if len(ms) != 1:
                     raise Undecided(f"lost-anchor: {it.path}: ghost anchor pattern `{g['anchor']}` matches {len(ms)} times")
                 st = b0 + (ms[0].end() if g["pos"] == "after" else ms[0].start())
+                # \1..\9 in the ghost text name what the anchor's groups matched (local names), so a rename keeps the proof
+                gt = re.sub(r"\\([1-9])", lambda mm: (ms[0].group(int(mm.group(1))) or b"").decode(), gt)
             else:
                 anc = g["anchor"].replace("\\n", "\n").encode()
                 cnt = body.count(anc)
@@ -613,6 +615,12 @@ def analyse(A, res):
         out["errors"] = vr.get("errors", 0)
         if vr.get("encountered-vir-error"):
             out["undecided"].append("verus VIR error (unsupported construct or ill-formed spec)")
+        panicked = [l for l in res.get("stderr_other", []) if "panicked at" in l or "internal error" in l]
+        if panicked:
+            # a crash of the verifier is a tool limit, never a verdict (and never a silent pass)
+            out["undecided"].append("tool: verus crashed: " + " | ".join(panicked[:2])[:300])
+        elif res.get("rc", 0) != 0 and not res["diags"]:
+            out["undecided"].append(f"tool: verus exited with status {res.get('rc')} and no diagnostics")
         try:
             for m in js["times-ms"]["smt"]["smt-run-module-times"]:
                 for f in m.get("function-breakdown", []):
@@ -745,6 +753,9 @@ def verify_unit(unit, seed=0, rlimit=None, do_canary=True, mutant=None):
         rlimit = max(rlimit or 0, A.meta["rlimit"])
     res = run_verus(path, seed=seed, rlimit=rlimit)
     an = analyse(A, res)
+    n_fn_items = len([i for i in A.items if i["kind"] == "fn"])
+    if not an["failures"] and not an["undecided"] and an["verified"] < n_fn_items:
+        an["undecided"].append(f"tool: verus reports {an['verified']} verified functions for {n_fn_items} functions under contract (zero-obligation guard)")
     r = {"unit": unit, "A": A, "path": path, "res": res, "an": an, "canary": None}
     trusted, forbidden = trusted_scan(A)
     r["trusted"] = trusted
@@ -1053,7 +1064,7 @@ def check_property(prop, tier="quick", seed=0):
             "bounded": [{
                 "kind": "boundary battery: concrete inputs run on the real code through replay/ with the expectation the property statement dictates (tools/battery.py); NOT a proof, never counted in obligations",
                 "stands_in_for": BOUNDED_STANDS_IN.get(prop, "functions the property depends on that are not under contract"),
-                "bound": BATTERY_BOUNDS.get(prop, ""),
+                "bound": BATTERY_BOUNDS.get(prop, "") + ("; " + BATTERY_BOUNDS_THOROUGH if tier == "thorough" else ""),
                 "ran": bat.get("ran"), "witnesses": bat.get("witnesses"), "failing": len(bat.get("failing", [])), "wall_s": bat.get("wall"), "note": bat.get("note"),
             }],
             "undecided": undecided,
@@ -1134,6 +1145,7 @@ BOUNDED_STANDS_IN = {
     "C04": "Assign/Capture/For/Include glue, persistence of assignments (RefCell), RuntimeBuilder::build",
     "C02": "every function reached by the battery inputs of the other properties (no panic)",
 }
+BATTERY_BOUNDS_THOROUGH = "thorough tier: C05 lengths 0..6 x offset/limit {absent, 0..8} (the property's own bound); C15 additionally 1500 random 64-bit operand pairs (VERIF_SEED); C04 6000 generated programs; C18 stack model to depth 3"
 BATTERY_BOUNDS = {
     "C14": "all orderings of up to 4 elements drawn from pools of integers with duplicates and nils, strings with duplicates and nils, all-nil, singleton and empty arrays (400 arrays) for sort/reverse/uniq/compact/concat/size/join/first/last; case-differing strings for sort_natural; all orderings of up to 4 objects from 7 (property present, absent, nil, false, duplicates) for map/where/compact/sort by property incl. stability",
     "C08": "460 caller programs x 7 partials: include and render with 4 argument forms, from outside and inside loops, reading/assigning/counting/breaking/continuing over shared names, missing and unparsable partials on executed and dead paths; against a reference interpreter of the two scoping disciplines",
